@@ -21,7 +21,7 @@ Chunks = HeapClass('BytesList', 'list', e=STR)
 Chunks.fields['cat'] = STR
 BS = HeapClass('BufferedSocket', 'record', pyclass='BufferedSocket',
                fields=dict(sock=REF(Sock), rbuf=STR, _recvsize=INT, timeout=REAL, _recv_lock=REF(Lock),
-                           sbuf=REF(Chunks), _send_lock=REF(Lock)))
+                           sbuf=REF(Chunks), _send_lock=REF(Lock), maxsize=INT))
 CLASSES = {'BufferedSocket': BS}
 ALL = [Sock, Lock, Chunks, BS]
 UNSET = z3.Const('_UNSET', Val)
@@ -233,16 +233,35 @@ peek = Contract('BufferedSocket.peek', setup=setup, requires=base_req, ensures=p
                 variants=['timeout'])
 
 
+def large_maxsize(eng):
+    """_RECV_LARGE_MAXSIZE as written in the module text (whatever its value: the property does not fix it)"""
+    import ast
+    node = eng.src.consts['_RECV_LARGE_MAXSIZE']
+    return int(eval(compile(ast.Expression(node), '<const>', 'eval'), {'__builtins__': {}}, {}))
+
+
 def rc_setup(eng, st, variant):
-    d = setup(eng, st, variant)
+    d = setup(eng, st, 'timeout')
     del d['size']
-    d['maxsize'] = SInt(z3.Int('arg_maxsize'))
+    # variants: an explicit integer maxsize | the default (_UNSET -> self.maxsize, an integer) | self.maxsize is None (-> 1 PB)
+    d['maxsize'] = SInt(z3.Int('arg_maxsize')) if variant == 'timeout' else SVal(UNSET)
+    if variant == 'maxsize-none':
+        eng.field_consts[('BufferedSocket', 'maxsize')] = SNone()
     return d
+
+
+def rc_max(c):
+    """the effective maxsize"""
+    if c.eng.variant == 'timeout':
+        return c.a('maxsize')
+    if c.eng.variant == 'maxsize-none':
+        return z3.IntVal(large_maxsize(c.eng))
+    return c.f(c.sv('self'), 'maxsize', c.old)
 
 
 def rc_requires(c):
     s = c.sv('self')
-    return [('maxsize >= 0, recvsize >= 1', z3.And(c.a('maxsize') >= 0, c.f(s, '_recvsize') >= 1)),
+    return [('maxsize >= 0, recvsize >= 1', z3.And(rc_max(c) >= 0, c.f(s, '_recvsize') >= 1)),
             ('objects', z3.And(s.t >= 1, s.t < c.st.alloc))]
 
 
@@ -250,22 +269,22 @@ def rc_ensures(c):
     s = c.sv('self')
     return [('everything up to the close is returned: returned == original stream, nothing is left',
              z3.And(c.r() == stream(c, c.old), c.f(s, 'rbuf') == E, c.g('pending') == E, c.g('closed'))),
-            ('within maxsize', z3.Length(c.r()) <= c.a('maxsize'))]
+            ('within maxsize', z3.Length(c.r()) <= rc_max(c))]
 
 
 def rc_toolong(c):
     return rs_raises_nothing_lost(c) + [('MessageTooLong only when more than maxsize bytes arrive before the close',
-                                         z3.Length(stream(c, c.old)) > c.a('maxsize'))]
+                                         z3.Length(stream(c, c.old)) > rc_max(c))]
 
 
 recv_close = Contract('BufferedSocket.recv_close', setup=rc_setup, requires=rc_requires, ensures=rc_ensures,
                       raises={'Timeout': rs_raises_nothing_lost, 'MessageTooLong': rc_toolong},
                       modifies=lambda c: [('BufferedSocket', 'rbuf'), ('BytesList', 'elems'), ('BytesList', 'len'), ('BytesList', 'cat')],
-                      variants=['timeout'])
+                      variants=['timeout', 'maxsize-default', 'maxsize-none'])
 for _c in [peek, recv_close]:
     _c.ghost_mod = ['pending']
     CONTRACTS[_c.qualname] = _c
-FUNCS += [('BufferedSocket.peek', ['timeout']), ('BufferedSocket.recv_close', ['timeout'])]
+FUNCS += [('BufferedSocket.peek', ['timeout']), ('BufferedSocket.recv_close', ['timeout', 'maxsize-default', 'maxsize-none'])]
 
 
 # ---- send side: send / sendall / flush / buffer -----------------------------------------------------------------------------
